@@ -507,3 +507,423 @@ Proof.
   intros o ps seekable Hok Hl. rewrite roundtrip by assumption.
   rewrite count_field_frames. reflexivity.
 Qed.
+
+(* ---------- PTS ---------- *)
+
+(* the timestamp argument of writeFrame for a packet with RTP timestamp ts when
+   firstFrameTimestamp is first *)
+Definition time_fn (o : opts) (ts first : N) : N :=
+  let d := subw 4294967296 ts first in
+  if o_direct o then d else u64 (1000 * d) / clock_rate.
+(* what goes into the frame header *)
+Definition pts_fn (o : opts) (t : N) : N :=
+  if o_direct o then t else u64 (t * o_num o) / o_den o.
+
+Definition frame_timed (o : opts) (first : N) (f : frec) : Prop :=
+  exists a pl, f_src f = a ++ [pl] /\
+               f_time f = time_fn o (p_ts pl) first /\ f_pts f = pts_fn o (f_time f).
+
+Definition pinv (o : opts) (s : wst) : Prop :=
+  w_count s = N.of_nat (length (w_log s)) /\
+  Forall (frame_timed o (w_first s)) (w_log s) /\
+  (forall f0 rest, w_log s = f0 :: rest -> exists a p0, f_src f0 = a ++ [p0] /\ w_first s = p_ts p0).
+
+Lemma pinv_init : forall o, pinv o (init_state o).
+Proof.
+  intros o. unfold pinv, init_state. cbn [w_count w_log w_first length].
+  repeat split; [constructor | intros f0 rest H; discriminate].
+Qed.
+
+Lemma pinv_first_upd : forall o s p, pinv o s -> pinv o (first_upd s p).
+Proof.
+  intros o s p (Hc & Hf & H0). unfold first_upd.
+  destruct (w_count s =? 0) eqn:E; [| repeat split; assumption].
+  apply N.eqb_eq in E. rewrite E in Hc.
+  destruct (w_log s) as [|f l] eqn:Hl; [| cbn [length] in Hc; lia].
+  unfold pinv, set_first. cbn [w_count w_log w_first]. rewrite Hl, E.
+  repeat split; [constructor | intros f0 rest H; discriminate].
+Qed.
+
+Lemma pinv_step : forall o s p s' st,
+  o_den o <> 0 -> N.of_nat (length (w_log s)) + 1 < 2 ^ 64 ->
+  pinv o s -> write_rtp o s p = (s', st) ->
+  pinv o s' /\ (length (w_log s') <= S (length (w_log s)))%nat.
+Proof.
+  intros o s p s' st Hden Hb Hinv H. apply write_rtp_cases in H.
+  destruct H as [_ -> _ | _ _ -> _ | _ _ -> _ _ | _ _ _ _ Hw].
+  - split; [exact Hinv | lia].
+  - split; [now apply pinv_first_upd |].
+    unfold first_upd. destruct (w_count s =? 0); cbn; lia.
+  - split; [exact (pinv_first_upd o s p Hinv) |].
+    unfold first_upd. destruct (w_count s =? 0); cbn; lia.
+  - pose proof (pinv_first_upd o s p Hinv) as (Hc & Hf & H0).
+    assert (Hlog : w_log (first_upd s p) = w_log s)
+      by (unfold first_upd; destruct (w_count s =? 0); reflexivity).
+    unfold write_frame, timestamp_to_pts in Hw.
+    assert (Hpts : (if o_direct o then Some (time_of o (first_upd s p) p)
+                    else if o_den o =? 0 then None
+                         else Some (u64 (time_of o (first_upd s p) p * o_num o) / o_den o))
+                   = Some (pts_fn o (time_of o (first_upd s p) p))).
+    { unfold pts_fn. apply N.eqb_neq in Hden. rewrite Hden. destruct (o_direct o); reflexivity. }
+    rewrite Hpts in Hw. injection Hw as <- <-.
+    cbn [w_log w_count w_first accept]. rewrite Hlog in *.
+    split; [| rewrite app_length; cbn; lia].
+    unfold pinv. cbn [w_log w_count w_first accept].
+    repeat split.
+    + rewrite Hc, app_length. cbn [length]. unfold u64. rewrite N.mod_small by lia. lia.
+    + apply Forall_app. split; [exact Hf|]. constructor; [| constructor].
+      exists (w_cursrc (first_upd s p)), p. cbn [f_src f_time f_pts]. repeat split.
+    + intros f0 rest Hl.
+      destruct (w_log s) as [|g l] eqn:Hls.
+      * cbn [app] in Hl. injection Hl as <- <-.
+        exists (w_cursrc (first_upd s p)), p. cbn [f_src]. split; [reflexivity|].
+        unfold first_upd. cbn [length] in Hc.
+        unfold first_upd in Hc.
+        destruct (w_count s =? 0) eqn:E; [reflexivity|].
+        apply N.eqb_neq in E. exfalso. apply E. rewrite Hc. reflexivity.
+      * cbn [app] in Hl. injection Hl as <- <-. apply (H0 g l). reflexivity.
+Qed.
+
+Lemma pinv_run : forall o ps s,
+  o_den o <> 0 -> N.of_nat (length (w_log s) + length ps) < 2 ^ 64 ->
+  pinv o s ->
+  pinv o (fst (run_packets o s ps)).
+Proof.
+  intros o ps. induction ps as [|p rest IH]; intros s Hden Hb Hinv; cbn [run_packets fst].
+  - exact Hinv.
+  - cbn [length] in Hb.
+    destruct (write_rtp o s p) as [s1 st] eqn:Hw.
+    destruct (pinv_step o s p s1 st Hden ltac:(lia) Hinv Hw) as (H1 & Hlen).
+    destruct st.
+    + specialize (IH s1 Hden ltac:(lia) H1). destruct (run_packets o s1 rest). exact IH.
+    + specialize (IH s1 Hden ltac:(lia) H1). destruct (run_packets o s1 rest). exact IH.
+    + exact H1.
+Qed.
+
+Lemma pts_of_frames : forall o ps f0 rest,
+  o_den o <> 0 -> N.of_nat (length ps) < 2 ^ 64 ->
+  frames_of o ps = f0 :: rest ->
+  exists a0 p0, f_src f0 = a0 ++ [p0] /\
+                Forall (frame_timed o (p_ts p0)) (f0 :: rest).
+Proof.
+  intros o ps f0 rest Hden Hb Hfr. unfold frames_of in Hfr.
+  destruct (pinv_run o ps (init_state o) Hden Hb (pinv_init o)) as (_ & Hf & H0).
+  destruct (H0 f0 rest Hfr) as (a0 & p0 & Hsrc & Hfirst).
+  exists a0, p0. split; [exact Hsrc|]. rewrite <- Hfirst, <- Hfr. exact Hf.
+Qed.
+
+(* ---------- gates ---------- *)
+
+Lemma app_cons_snoc : forall (A : Type) (a b l : list A) (x y : A),
+  a ++ x :: b = l ++ [y] ->
+  (b = [] /\ a = l /\ x = y) \/ (exists b0, b = b0 ++ [y] /\ l = a ++ x :: b0).
+Proof.
+  intros A a b l x y H.
+  destruct b as [|z b'].
+  - left. apply app_inj_tail in H. destruct H; auto.
+  - right. destruct (@exists_last A (z :: b') ltac:(discriminate)) as (b0 & w & Hb).
+    rewrite Hb in H |- *.
+    replace (a ++ x :: b0 ++ [w]) with ((a ++ x :: b0) ++ [w]) in H
+      by (rewrite <- app_assoc; reflexivity).
+    apply app_inj_tail in H. destruct H as [H1 H2]. subst. exists b0. auto.
+Qed.
+
+Definition effective (p : pkt) : Prop := p_raw_empty p = false /\ p_err p = false.
+
+(* a marker on a packet that is not the last of its frame is only possible
+   (VP8/VP9) while everything collected up to and including it is empty *)
+Definition early_marker_ok (c : codec) (src : list pkt) : Prop :=
+  forall a p b, src = a ++ p :: b -> p_marker p = true ->
+                c <> AV1 /\ flat_map p_payload (a ++ [p]) = [].
+
+Definition starts_ok (c : codec) (src : list pkt) : Prop :=
+  c <> AV1 -> match src with [] => True | p :: _ => p_start p = true end.
+
+Definition frame_ok (c : codec) (f : frec) : Prop :=
+  f_bytes f = prefix_of c ++ flat_map p_payload (f_src f) /\
+  Forall effective (f_src f) /\
+  starts_ok c (f_src f) /\
+  exists a pl, f_src f = a ++ [pl] /\ p_marker pl = true /\ early_marker_ok c a.
+
+Definition ginv (o : opts) (s : wst) : Prop :=
+  w_cur s = flat_map p_payload (w_cursrc s) /\
+  Forall effective (w_cursrc s) /\
+  starts_ok (o_codec o) (w_cursrc s) /\
+  early_marker_ok (o_codec o) (w_cursrc s) /\
+  (w_seen s = false -> w_cursrc s = [] /\ w_log s = []) /\
+  Forall (frame_ok (o_codec o)) (w_log s).
+
+Lemma ginv_init : forall o, ginv o (init_state o).
+Proof.
+  intros o. unfold ginv, init_state. cbn [w_cur w_cursrc w_seen w_log flat_map].
+  split; [reflexivity|]. split; [constructor|]. split; [intros _; exact I|].
+  split; [intros a p b H; destruct a; discriminate|].
+  split; [intros _; split; reflexivity | constructor].
+Qed.
+
+Lemma ginv_first_upd : forall o s p, ginv o s -> ginv o (first_upd s p).
+Proof. intros o s p H. unfold first_upd. destruct (w_count s =? 0); exact H. Qed.
+
+Lemma accepts_effective : forall o s p, accepts o s p = true -> p_err p = false.
+Proof. intros o s p H. unfold accepts in H. destruct (p_err p); [discriminate | reflexivity]. Qed.
+
+Lemma accepts_start : forall o s p,
+  accepts o s p = true -> o_codec o <> AV1 -> w_cur s = [] -> p_start p = true.
+Proof.
+  intros o s p H Hc Hcur. unfold accepts in H. rewrite Hcur in H. cbn [is_nil negb orb] in H.
+  destruct (p_err p); [discriminate|]. cbn [negb andb] in H.
+  destruct (o_codec o); [| | congruence].
+  - destruct (p_payload p); [discriminate|].
+    apply andb_prop in H. apply H.
+  - apply andb_prop in H. apply H.
+Qed.
+
+Lemma starts_ok_snoc : forall o s p,
+  ginv o s -> accepts o s p = true -> starts_ok (o_codec o) (w_cursrc s ++ [p]).
+Proof.
+  intros o s p (Hcur & _ & Hst & _) Hacc Hc.
+  destruct (w_cursrc s) as [|q t] eqn:Hs.
+  - cbn [app]. cbn [flat_map] in Hcur. eapply accepts_start; eauto.
+  - cbn [app]. exact (Hst Hc).
+Qed.
+
+Lemma ginv_step : forall o s p s' st,
+  o_den o <> 0 -> ginv o s -> write_rtp o s p = (s', st) -> ginv o s'.
+Proof.
+  intros o s p s' st Hden Hinv H. apply write_rtp_cases in H.
+  destruct H as [_ -> _ | _ _ -> _ | Hre Hacc -> _ Hmk | Hre Hacc Hm Hne Hw].
+  - exact Hinv.
+  - now apply ginv_first_upd.
+  - pose proof (ginv_first_upd o s p Hinv) as Hi.
+    pose proof (starts_ok_snoc o _ p Hi Hacc) as Hso.
+    destruct Hi as (Hcur & Heff & Hst & Hem & Hseen & Hlog).
+    set (s0 := first_upd s p) in *.
+    unfold ginv. cbn [accept w_cur w_cursrc w_seen w_log].
+    split; [| split; [| split; [| split; [| split]]]].
+    + rewrite flat_map_app, Hcur. cbn [flat_map]. rewrite app_nil_r. reflexivity.
+    + apply Forall_app. split; [exact Heff|]. constructor; [| constructor].
+      split; [exact Hre | eapply accepts_effective; eauto].
+    + exact Hso.
+    + intros a q b Hsplit Hq.
+      symmetry in Hsplit.
+      apply app_cons_snoc in Hsplit. destruct Hsplit as [(-> & -> & ->) | (b0 & -> & Hs)].
+      * destruct Hmk as [Hmk | (Hc & Hnil)]; [congruence|].
+        split; [exact Hc|]. cbn [accept w_cur] in Hnil.
+        rewrite flat_map_app. cbn [flat_map]. rewrite app_nil_r, <- Hcur. exact Hnil.
+      * exact (Hem a q b0 Hs Hq).
+    + discriminate.
+    + exact Hlog.
+  - pose proof (ginv_first_upd o s p Hinv) as Hi.
+    pose proof (starts_ok_snoc o _ p Hi Hacc) as Hso.
+    destruct Hi as (Hcur & Heff & Hst & Hem & Hseen & Hlog).
+    set (s0 := first_upd s p) in *.
+    unfold write_frame, timestamp_to_pts in Hw.
+    apply N.eqb_neq in Hden. rewrite Hden in Hw.
+    assert (Hfr : frame_ok (o_codec o)
+              (mkFrec (prefix_of (o_codec o) ++ w_cur (accept s0 p)) (time_of o s0 p)
+                      (pts_fn o (time_of o s0 p)) (w_cursrc (accept s0 p)))).
+    { unfold frame_ok. cbn [f_bytes f_src accept w_cur w_cursrc]. repeat split.
+      - rewrite flat_map_app, Hcur. cbn [flat_map]. rewrite app_nil_r. reflexivity.
+      - apply Forall_app. split; [exact Heff|]. constructor; [| constructor].
+        split; [exact Hre | eapply accepts_effective; eauto].
+      - exact Hso.
+      - exists (w_cursrc s0), p. auto. }
+    unfold pts_fn in Hfr.
+    destruct (o_direct o); injection Hw as <- <-;
+      unfold ginv; cbn [accept w_cur w_cursrc w_seen w_log flat_map];
+      (split; [reflexivity|]; split; [constructor|]; split; [intros _; exact I|];
+       split; [intros a q b H; destruct a; discriminate|];
+       split; [discriminate|];
+       apply Forall_app; split; [exact Hlog | constructor; [exact Hfr | constructor]]).
+Qed.
+
+Lemma ginv_run : forall o ps s,
+  o_den o <> 0 -> ginv o s -> ginv o (fst (run_packets o s ps)).
+Proof.
+  intros o ps. induction ps as [|p rest IH]; intros s Hden Hinv; cbn [run_packets fst].
+  - exact Hinv.
+  - destruct (write_rtp o s p) as [s1 st] eqn:Hw.
+    pose proof (ginv_step o s p s1 st Hden Hinv Hw) as H1.
+    destruct st.
+    + specialize (IH s1 Hden H1). destruct (run_packets o s1 rest). exact IH.
+    + specialize (IH s1 Hden H1). destruct (run_packets o s1 rest). exact IH.
+    + exact H1.
+Qed.
+
+Lemma frames_gate : forall o ps,
+  o_den o <> 0 -> Forall (frame_ok (o_codec o)) (frames_of o ps).
+Proof.
+  intros o ps Hden. unfold frames_of.
+  apply (ginv_run o ps (init_state o) Hden (ginv_init o)).
+Qed.
+
+(* nothing is written before a keyframe packet *)
+Definition key_pkt (c : codec) (p : pkt) : bool :=
+  negb (p_raw_empty p) && negb (p_err p) &&
+  match c with
+  | VP8 => match p_payload p with [] => false | b0 :: _ => N.land b0 1 =? 0 end
+  | VP9 => negb (p_flag p)
+  | AV1 => av1_is_key p
+  end.
+
+Lemma accepts_unseen_key : forall o s p,
+  p_raw_empty p = false -> w_seen s = false -> accepts o s p = true -> key_pkt (o_codec o) p = true.
+Proof.
+  intros o s p Hre Hs H. unfold accepts in H. unfold key_pkt. rewrite Hre, Hs in *.
+  destruct (p_err p); [discriminate|]. cbn [negb andb orb] in *.
+  destruct (o_codec o).
+  - destruct (p_payload p); [discriminate|]. apply andb_prop in H. apply H.
+  - apply andb_prop in H. apply H.
+  - exact H.
+Qed.
+
+Lemma unseen_step : forall o s p s' st,
+  key_pkt (o_codec o) p = false -> w_seen s = false ->
+  write_rtp o s p = (s', st) -> w_seen s' = false.
+Proof.
+  intros o s p s' st Hk Hs H. apply write_rtp_cases in H.
+  assert (Hs0 : w_seen (first_upd s p) = false)
+    by (unfold first_upd; destruct (w_count s =? 0); exact Hs).
+  destruct H as [_ -> _ | _ _ -> _ | Hre Hacc _ _ _ | Hre Hacc _ _ _].
+  - exact Hs.
+  - exact Hs0.
+  - rewrite (accepts_unseen_key o _ p Hre Hs0 Hacc) in Hk. discriminate.
+  - rewrite (accepts_unseen_key o _ p Hre Hs0 Hacc) in Hk. discriminate.
+Qed.
+
+Lemma unseen_run : forall o ps s,
+  Forall (fun p => key_pkt (o_codec o) p = false) ps -> w_seen s = false ->
+  w_seen (fst (run_packets o s ps)) = false.
+Proof.
+  intros o ps. induction ps as [|p rest IH]; intros s Hk Hs; cbn [run_packets fst].
+  - exact Hs.
+  - inversion Hk as [|? ? Hk1 Hk2]; subst.
+    destruct (write_rtp o s p) as [s1 st] eqn:Hw.
+    pose proof (unseen_step o s p s1 st Hk1 Hs Hw) as H1.
+    destruct st.
+    + specialize (IH s1 Hk2 H1). destruct (run_packets o s1 rest). exact IH.
+    + specialize (IH s1 Hk2 H1). destruct (run_packets o s1 rest). exact IH.
+    + exact H1.
+Qed.
+
+Lemma nothing_before_key : forall o ps,
+  o_den o <> 0 ->
+  Forall (fun p => key_pkt (o_codec o) p = false) ps -> frames_of o ps = [].
+Proof.
+  intros o ps Hden Hk. unfold frames_of.
+  pose proof (ginv_run o ps (init_state o) Hden (ginv_init o)) as (_ & _ & _ & _ & Hseen & _).
+  apply Hseen. apply unseen_run; [exact Hk | reflexivity].
+Qed.
+
+(* the packets a frame was assembled from come from the stream *)
+Definition iinv (pre : list pkt) (s : wst) : Prop :=
+  incl (w_cursrc s) pre /\ Forall (fun f => incl (f_src f) pre) (w_log s).
+
+Lemma iinv_weaken : forall pre p s, iinv pre s -> iinv (pre ++ [p]) s.
+Proof.
+  intros pre p s (H1 & H2). split.
+  - apply incl_appl. exact H1.
+  - eapply Forall_impl; [| exact H2]. intros f Hf. apply incl_appl. exact Hf.
+Qed.
+
+Lemma iinv_step : forall o pre s p s' st,
+  iinv pre s -> write_rtp o s p = (s', st) -> iinv (pre ++ [p]) s'.
+Proof.
+  intros o pre s p s' st Hinv H. apply write_rtp_cases in H.
+  assert (H0 : iinv (pre ++ [p]) (first_upd s p)).
+  { apply iinv_weaken. unfold first_upd. destruct (w_count s =? 0); exact Hinv. }
+  assert (Hacc : iinv (pre ++ [p]) (accept (first_upd s p) p)).
+  { destruct H0 as (Ha & Hb). split; [| exact Hb]. cbn [accept w_cursrc].
+    apply incl_app; [exact Ha|]. apply incl_appr. apply incl_refl. }
+  destruct H as [_ -> _ | _ _ -> _ | _ _ -> _ _ | _ _ _ _ Hw].
+  - now apply iinv_weaken.
+  - exact H0.
+  - exact Hacc.
+  - unfold write_frame in Hw.
+    destruct (if o_direct o then Some (time_of o (first_upd s p) p)
+              else timestamp_to_pts o (time_of o (first_upd s p) p)).
+    + injection Hw as <- <-. destruct Hacc as (Ha & Hb). split.
+      * cbn [w_cursrc]. intros x [].
+      * cbn [w_log]. apply Forall_app. split; [exact Hb|]. constructor; [exact Ha | constructor].
+    + injection Hw as <- <-. exact Hacc.
+Qed.
+
+Lemma iinv_run : forall o ps pre s,
+  iinv pre s -> iinv (pre ++ ps) (fst (run_packets o s ps)).
+Proof.
+  intros o ps. induction ps as [|p rest IH]; intros pre s Hinv; cbn [run_packets fst].
+  - rewrite app_nil_r. exact Hinv.
+  - destruct (write_rtp o s p) as [s1 st] eqn:Hw.
+    pose proof (iinv_step o pre s p s1 st Hinv Hw) as H1.
+    replace (pre ++ p :: rest) with ((pre ++ [p]) ++ rest) by (rewrite <- app_assoc; reflexivity).
+    destruct st.
+    + specialize (IH _ s1 H1). destruct (run_packets o s1 rest). exact IH.
+    + specialize (IH _ s1 H1). destruct (run_packets o s1 rest). exact IH.
+    + cbn [fst]. destruct H1 as (Ha & Hb). split.
+      * apply incl_appl. exact Ha.
+      * eapply Forall_impl; [| exact Hb]. intros f Hf. apply incl_appl. exact Hf.
+Qed.
+
+Lemma frames_from_stream : forall o ps,
+  Forall (fun f => incl (f_src f) ps) (frames_of o ps).
+Proof.
+  intros o ps. unfold frames_of.
+  assert (H : iinv [] (init_state o)) by (split; [intros x [] | constructor]).
+  apply (iinv_run o ps [] _ H).
+Qed.
+
+(* ---------- statements as they appear in Properties/C32.v ---------- *)
+
+Lemma gate_statement : forall o ps,
+  o_den o <> 0 ->
+  Forall (fun f =>
+    incl (f_src f) ps /\
+    f_bytes f = (match o_codec o with AV1 => [18; 0] | _ => [] end) ++ flat_map p_payload (f_src f) /\
+    Forall (fun p => p_raw_empty p = false /\ p_err p = false) (f_src f) /\
+    (o_codec o <> AV1 -> match f_src f with [] => True | p :: _ => p_start p = true end) /\
+    exists a pl, f_src f = a ++ [pl] /\ p_marker pl = true /\
+      forall a1 p b, a = a1 ++ p :: b -> p_marker p = true ->
+                     o_codec o <> AV1 /\ flat_map p_payload (a1 ++ [p]) = [])
+  (frames_of o ps).
+Proof.
+  intros o ps Hden.
+  pose proof (frames_gate o ps Hden) as H1. pose proof (frames_from_stream o ps) as H2.
+  rewrite Forall_forall in *. intros f Hf. split; [exact (H2 f Hf) | exact (H1 f Hf)].
+Qed.
+
+Lemma gate_keyframe_statement : forall o ps,
+  o_den o <> 0 ->
+  Forall (fun p => key_pkt (o_codec o) p = false) ps ->
+  frames_of o ps = [] /\ written o ps false = ivf_header o 900.
+Proof.
+  intros o ps Hden Hk. pose proof (nothing_before_key o ps Hden Hk) as Hn.
+  split; [exact Hn|]. unfold written.
+  rewrite (close_shape o false _ (run_packets_inv o ps (init_state o) (winv_init o))).
+  unfold frames_of in Hn. rewrite Hn. unfold count_field, records. cbn [flat_map]. apply app_nil_r.
+Qed.
+
+Lemma le_statement : forall w n,
+  n < 2 ^ (8 * N.of_nat w) -> le_val (le_bytes w n) = n /\ length (le_bytes w n) = w.
+Proof. intros w n H; split; [exact (le_roundtrip w n H) | exact (le_bytes_length w n)]. Qed.
+
+Lemma roundtrip_statement : forall o ps seekable,
+  opts_ok o ->
+  Forall (fun f => N.of_nat (length (f_bytes f)) < 4294967296) (frames_of o ps) ->
+  exists h,
+    read_file (written o ps seekable)
+    = Ok (h, map (read_back o) (frames_of o ps), "EOF"%string).
+Proof. intros o ps seekable Hok Hl. eexists. exact (roundtrip o ps seekable Hok Hl). Qed.
+
+Lemma header_statement : forall o ps seekable,
+  opts_ok o ->
+  Forall (fun f => N.of_nat (length (f_bytes f)) < 4294967296) (frames_of o ps) ->
+  exists frs e,
+    read_file (written o ps seekable)
+    = Ok (mkFhdr (fourcc (o_codec o)) (o_width o) (o_height o) (o_den o) (o_num o)
+                 (if seekable then N.of_nat (length (frames_of o ps)) mod 4294967296 else 900)
+                 32 0, frs, e).
+Proof. intros o ps seekable Hok Hl. do 2 eexists. exact (roundtrip_header o ps seekable Hok Hl). Qed.
+
+Lemma no_panic_statement : forall o ps,
+  o_den o <> 0 -> ~ In SPanic (snd (run_packets o (init_state o) ps)).
+Proof. intros o ps H. exact (run_packets_no_panic o ps (init_state o) H). Qed.
